@@ -30,6 +30,15 @@ def samepoint(p, q):
 
 
 def check_struct(case):
+    dis = check_struct1(case, False)
+    if "A" in case["arg"][0]:
+        # the same path with a ZERO-RADIUS arc in place of every arc: such an arc is the straight line between its end points
+        # (SVG F.6.2), not an arc of zero extent - it is replaced by curves along that line and its neighbours stay put
+        dis += check_struct1(case, True)
+    return dis
+
+
+def check_struct1(case, zero_radius):
     w, n = case["arg"]
     exp = case["exp"]
     dis = []
@@ -41,7 +50,7 @@ def check_struct(case):
             segs.append(svg.Line(PT(cur), PT(cur + 1)))
             cur += 1
         elif k == "A":
-            segs.append(svg.Arc(PT(cur), 40, 25, 20, 0, 1, PT(cur + 1)))
+            segs.append(svg.Arc(PT(cur), 0 if zero_radius else 40, 25, 20, 0, 1, PT(cur + 1)))
             cur += 1
         else:
             segs.append(svg.Arc(PT(cur), 40, 25, 20, 0, 1, PT(cur)))
@@ -49,7 +58,7 @@ def check_struct(case):
     for api in ("cubics", "quads", "slices_cubic", "slices_quad"):
         p = svg.Path(*[type(s)(*[svg.Point(q) if q is not None else None for q in (s.start, s.end)]) if isinstance(s, (svg.Move, svg.Line)) else
                        svg.Arc(svg.Point(s.start), svg.Point(s.end), svg.Point(s.center), svg.Point(s.prx), svg.Point(s.pry), s.sweep) for s in segs])
-        what = "path M%s with %s (n=%d)" % ("".join(w if len(w) == 1 else "a" for w in kinds), api, n)
+        what = "path M%s%s with %s (n=%d)" % ("".join(w if len(w) == 1 else "a" for w in kinds), " (zero-radius arcs)" if zero_radius else "", api, n)
         try:
             if api == "cubics":
                 p.approximate_arcs_with_cubics()
@@ -90,7 +99,7 @@ def check_struct(case):
                 if m == 0:
                     dis.append({"clause": "EmptyChain", "detail": "%s: the arc %d->%d produced no curves" % (what, cur, cur + 1)})
                     break
-                if api.startswith("slices") and m != n:
+                if api.startswith("slices") and m != n and not zero_radius:
                     dis.append({"clause": "SliceCount", "detail": "%s: %d curves for the arc %d->%d" % (what, m, cur, cur + 1)})
                 if not samepoint(got[first].start, PT(cur)) or not samepoint(got[j - 1].end, PT(cur + 1)):
                     dis.append({"clause": "ChainEnds", "detail": "%s: chain runs %r -> %r, the arc ran %r -> %r" % (what, got[first].start, got[j - 1].end, PT(cur), PT(cur + 1))})
